@@ -482,7 +482,8 @@ def h_covering(rp, l, o):
     locs = [build_mps(rep_to_rec(r, 1)) for r in l['locals']]
     rp.bc = 'finite'
     rp.psi = quiet(MPS.from_product_mps_covering, locs, [tuple(m) for m in l['imap']], bc='finite', unit_cell_width=l['n'])
-    return dict(sig=dict(imap=str(l['imap'])))
+    srt = all(list(m) == sorted(m) for m in l['imap'])
+    return dict(sig=dict(sorted_maps=srt))
 
 
 def h_from_full(rp, l, o):
